@@ -160,7 +160,7 @@ Proof. exact tick_expired_sends. Qed.
 Theorem C02_setpixelformat_resync : forall st c bpp,
   Inv st -> In c (sClients st) ->
   let c' := setpf_client st bpp c in
-  InvC (sW st) (sH st) (fb_for st c') c' /\ cBpp c' = bpp.
+  InvC (sW st) (sH st) (fb_for st c') c' /\ cBpp c' = mkX (sBpp st) bpp.
 Proof. exact setpixelformat_resync. Qed.
 
 (* ---------------------------------------------------------------- other encodings *)
